@@ -98,6 +98,72 @@ def footprint_scan(repo):
     return bad, nsub
 
 
+class LogList(list):
+    """A rural data list that records how the running simulation reads it."""
+
+    def bind(self, name, log, model):
+        self._n, self._log, self._m = name, log, model
+        return self
+
+    def _note(self, how, idx):
+        self._log.append((self._n, how, idx, getattr(self._m, 'ceil_time_step', None)))
+
+    def __getitem__(self, i):
+        self._note('item', i)
+        return list.__getitem__(self, i)
+
+    def __iter__(self):
+        self._note('iter', None)
+        return list.__iter__(self)
+
+    def __len__(self):
+        return list.__len__(self)
+
+
+def dynamic_footprint(chk):
+    """Dynamic half of the assumption "a step reads only the current forcing row": real, un-stubbed
+    simulations in which every rural list of forcIP (and the containers of the rural file) is
+    replaced by a logging list; every read must be at index ceil_time_step of that step, whole-list
+    reads are allowed only for forcIP.temp (the window mean when there are < 3 ground depths)."""
+    import uwgutil as U2
+    bad, nreads, runs = [], 0, 0
+    fields = ('infra', 'wind', 'uDir', 'hum', 'pres', 'temp', 'rHum', 'prec', 'dif', 'dir')
+    for (mo, dy, dt, nsoil3) in [(1, 1, 300, True), (6, 30, 150, True), (3, 1, 300, False)]:
+        m = U2.new_model(outdir=chk.work(), outname='fp.epw', month=mo, day=dy, nday=1, dtsim=dt)
+        with core.quiet():
+            m.generate()
+        if not nsoil3:
+            m.nSoil = 2
+        log = []
+        for f in fields:
+            setattr(m.forcIP, f, LogList(getattr(m.forcIP, f)).bind('forcIP.' + f, log, m))
+        m.epwinput = LogList(m.epwinput).bind('epwinput', log, m)
+        m.weather.staTemp = LogList(m.weather.staTemp).bind('weather.staTemp', log, m)
+        try:
+            with core.quiet():
+                m.simulate()
+        except Exception as e:  # noqa
+            chk.notes.append('dynamic footprint run %s skipped: %s' % ((mo, dy, dt), str(e)[:60]))
+            continue
+        runs += 1
+        nreads += len(log)
+        for (name, how, idx, row) in log:
+            ok = (how == 'item' and name.startswith('forcIP.') and idx == row) or \
+                 (how == 'iter' and name == 'forcIP.temp' and not nsoil3)
+            if not ok and len(bad) < 3:
+                bad.append('%s read by %s at index %r while the step\'s row is %r (start %d/%d dt=%d)' % (
+                    name, how, idx, row, mo, dy, dt))
+    if bad:
+        chk.corr_problems.append({'tie': 'dynamic-footprint', 'case': '; '.join(bad),
+                                  'impl': 'rural data read outside the current forcing row',
+                                  'model': 'physics step reads (state, current row, clock, deep temperature)'})
+    chk.direct('dynamic-footprint(real simulate, logging lists)', nreads, runs,
+               'un-stubbed 1-day simulations with every rural list replaced by a logging list: every one of the '
+               '%d reads is forcIP.<field>[ceil_time_step] of its own step (whole-list reads only of forcIP.temp '
+               'when the file has < 3 ground depths); epwinput / weather lists are not read at all' % nreads,
+               mismatches=len(bad), samples=bad or ['%d reads in %d runs, all at the current row' % (nreads, runs)])
+
+
 def toy_cases(chk, n, bad_dt=False):
     """Real simulate loop with toy physics vs Lean Sim.simulate with the same toy physics."""
     import simdriver
@@ -155,6 +221,7 @@ def run(chk):
                'every subscript of self.forcIP.<field> inside simulate is [self.ceil_time_step]; whole-window '
                'reads only sum/len(self.forcIP.temp); no other module mentions the rural containers',
                mismatches=len(fbad), samples=fbad[:3] or ['%d forcIP subscripts, all at ceil_time_step' % nsub])
+    dynamic_footprint(chk)
     cases = toy_cases(chk, 24 if chk.tier == 'quick' else 200)
     chk.correspond('simulate(toy physics)~Sim.simulate', 'C03', cases,
                    rule='the REAL UWG.simulate loop with the physics replaced from outside by a toy step that '
